@@ -48,12 +48,14 @@ pub fn eval_prop(graph: &SymbolicAsyncGraph, proposition: &str) -> GraphColoredV
         .find_network_variable(proposition)
         .unwrap();
 
+    // do intersection with the unit set, so that the result respects the valid universe of the graph
     GraphColoredVertices::new(
         graph
             .symbolic_context()
             .mk_state_variable_is_true(network_variable),
         graph.symbolic_context(),
     )
+    .intersect(graph.unit_colored_vertices())
 }
 
 /// Evaluate atomic sub-formula containing only a HCTL variable.
